@@ -299,6 +299,17 @@ class Engine:
             stack.extend(x.children())
         return acc
 
+    def _slice_pool(self):
+        n = len(self.axioms)
+        cache = getattr(self, '_pool_cache', None)
+        if cache is None:
+            cache = self._pool_cache = {'n': 0, 'ax': [], 'base': [(b, self.vars_of(b, set())) for b in self.base]}
+        for k in range(cache['n'], n):
+            if self.tiers[k] == 0:
+                cache['ax'].append((self.axioms[k], self.vars_of(self.axioms[k], set())))
+        cache['n'] = n
+        return cache['ax'] + cache['base']
+
     def check_bare(self, cond, timeout=1000):
         """the condition alone (e.g. a sum of squares is never negative): no axioms, no path"""
         self._tick()
@@ -310,27 +321,36 @@ class Engine:
         self.nq += 1
         return str(r)
 
-    def check_slice(self, cond, timeout=3000):
+    def check_slice(self, cond, timeout=3000, depth=None):
         """cone-of-influence query with T0 axioms only (sound for proving unsat:
-        it uses a subset of the constraints)"""
+        it uses a subset of the constraints); `depth` bounds the number of closure rounds"""
         self._tick()
         need = self.vars_of(cond, set())
-        pool = [(a, self.vars_of(a, set())) for a, t in zip(self.axioms, self.tiers) if t == 0]
-        pool += [(b, self.vars_of(b, set())) for b in self.base]
+        pool = self._slice_pool()
         chosen = []
         changed = True
         used = set()
-        while changed:
+        rounds = 0
+        while changed and (depth is None or rounds < depth):
+            rounds += 1
             changed = False
             for k, (a, vs) in enumerate(pool):
                 if k in used:
                     continue
-                if vs & need and len(vs) <= 6:
+                if vs & need and len(vs) <= (6 if depth is None else 14):
+                    if depth is not None and (z3.is_implies(a) or len(vs) > 4 and not vs <= need and z3.is_eq(a) and a.arg(1).num_args() > 6):
+                        continue   # light slices: no conditional axioms, no big definitions
                     used.add(k)
                     chosen.append(a)
                     if not vs <= need:
                         need |= vs
                         changed = True
+        if depth is not None:
+            # closing round: constraints that only talk about variables already in the slice (e.g. beta > 0)
+            for k, (a, vs) in enumerate(pool):
+                if k not in used and vs and vs <= need and not z3.is_implies(a):
+                    used.add(k)
+                    chosen.append(a)
         sol = self.solver(timeout)
         for a in chosen:
             sol.add(a)
@@ -389,7 +409,8 @@ class Engine:
             return self._branch(cond, sh)
         if any(self.alive[k] and ok and v for k, (v, ok) in enumerate(sh)):
             return self._branch(cond, sh)
-        if self.check_bare(cond) == 'unsat' or self.check_slice(cond) == 'unsat' or self.check_slice(abstract(cond)) == 'unsat':
+        if (self.check_bare(cond) == 'unsat' or self.check_slice(cond, timeout=1500, depth=1) == 'unsat'
+                or self.check_slice(cond) == 'unsat' or self.check_slice(abstract(cond)) == 'unsat'):
             self.decisions.append((False, False))
             self.gsaved += 1
             return False
@@ -765,7 +786,9 @@ class Sym:
         except TypeError:
             return NotImplemented
         so = shadow_of(o)
-        if ENG.guard(d == 0, [(x == 0, x == x) for x in so], 'ZeroDivisionError'):
+        if _sgn(facts_of(o)) in ('pos', 'neg'):
+            ENG.gfacts = getattr(ENG, 'gfacts', 0) + 1      # nonzero by the proved interval facts: no query
+        elif ENG.guard(d == 0, [(x == 0, x == x) for x in so], 'ZeroDivisionError'):
             raise ZeroDivisionError('float division by zero')
         sh = _sf(lambda a, b: a / b, s.s, so)
         sg, nc = canon_sign(s.t)
@@ -780,7 +803,9 @@ class Sym:
             n = lift(o)
         except TypeError:
             return NotImplemented
-        if ENG.guard(s.t == 0, [(x == 0, x == x) for x in s.s], 'ZeroDivisionError'):
+        if _sgn(s.f) in ('pos', 'neg'):
+            ENG.gfacts = getattr(ENG, 'gfacts', 0) + 1
+        elif ENG.guard(s.t == 0, [(x == 0, x == x) for x in s.s], 'ZeroDivisionError'):
             raise ZeroDivisionError('float division by zero')
         sh = _sf(lambda a, b: b / a, s.s, shadow_of(o))
         sg, nc = canon_sign(n)
@@ -908,7 +933,7 @@ def uf_app(name, argsym, mk_axioms, rf=None):
             if same(arg, a2):
                 ENG.reuse += 1
                 return Sym(r2, s=rsh2, f=rf2)
-        if name in NEG_RULE and close(ash, tuple(-x for x in sh2)):
+        if name in NEG_RULE and not (name == 'exp' and ENG.opts.get('underflow')) and close(ash, tuple(-x for x in sh2)):
             if same(arg, a2, neg=True):
                 ENG.reuse += 1
                 if name == 'exp':
@@ -990,6 +1015,8 @@ def related(a, a2):
     """relevance filter for the pairwise T1 axioms: two arguments can only be ordered against each
     other if they share a derived quantity (e.g. the same sqrt denominator) or one has none.
     Leaving axioms out only weakens the assumptions, so `unsat` verdicts stay valid."""
+    if ENG.opts.get('no_t1'):
+        return False      # guard-only runs (C08): the pairwise axioms are never needed, only range/definition axioms
     if not ENG.opts.get('t1_filter', True):
         return True
     va, vb = _derived_vars(a), _derived_vars(a2)
@@ -1107,7 +1134,9 @@ class SymMath:
 
     def sqrt(self, x):
         if isinstance(x, Sym):
-            if ENG.guard(x.t < 0, [(v < 0, v == v) for v in x.s], 'ValueError(sqrt)'):
+            if _sgn(x.f) in ('pos', 'nonneg'):
+                ENG.gfacts = getattr(ENG, 'gfacts', 0) + 1
+            elif ENG.guard(x.t < 0, [(v < 0, v == v) for v in x.s], 'ValueError(sqrt)'):
                 raise ValueError('math domain error')
             return uf_app('sqrt', x, ax_sqrt)
         return math.sqrt(x)
